@@ -38,6 +38,17 @@ CHECKS = {
         "note": "Trusted: TLC; the abstraction of byte code to index-addressed instructions in the harness; the two guarded hooks.",
         "technique": "TLA+ transcription model-checked exhaustively (small scope) + artefact validation of real optimizer in/out pairs + twin runs",
     },
+    "C08": {
+        "text": ("CompiledConc.tla models the original and its clones (RW lock each, private globals, shared constants/index map, the lazily written "
+                 "rune and last-file caches) under concurrent Run/Get/GetAll/IsDefined/Set/Clone/ReplaceBuiltinModule; TLC explores all "
+                 "interleavings of every plan: NoRace, Isolation, lock sanity. The faithful configuration (caches included) is rejected - the "
+                 "model-level statement of the two known findings; the contract configuration holds and its plans are executed on real objects "
+                 "under Go's race detector, with isolation and post-history correctness checks."),
+        "design_ref": "DESIGN.md 5.8, 8/C08",
+        "note": ("Trusted: TLC; Go's race detector as the observer of memory accesses; plans respect the documented contract of ReplaceBuiltinModule "
+                 "(on clones that are not themselves cloned). Values returned by Get are live references and are not traversed concurrently."),
+        "technique": "TLA+ model of locks and shared regions checked by TLC; TLC-generated concurrent plans executed under the Go race detector",
+    },
     "C09": {
         "text": ("TengoSem carries a ghost set of snapshots of every container that became immutable from storage no mutable value shares; TLC "
                  "checks the invariant ImmStable (contents never change) in every state of every program. The immut family (every origin of "
